@@ -127,8 +127,10 @@ def oracle(ctx, o, first_only=False):
         slow = name in fc.EXPENSIVE or name in ("sun_md5_crypt", "scrypt")
         muts = structural_mutants(hs, rng, ctx.thorough)
         always = [hs + "x", hs + hs, hs + "$", hs + "\n", hs + " ", " " + hs, hs[:-1], hs[:-1] + ("A" if hs[-1:] != "A" else "B"), hs.swapcase()]
-        if slow and not ctx.thorough:
-            muts = rng.sample(muts, min(len(muts), 60))
+        if slow:
+            muts = rng.sample(muts, min(len(muts), 60 if not ctx.thorough else 400))
+        elif ctx.thorough and len(muts) > 500:
+            muts = rng.sample(muts, 500)
         muts = sorted(set(muts) | {m for m in always if m != hs})
         for m in muts:
             for form in ((m, m.encode("utf-8", "surrogatepass")) if rng.random() < 0.2 else (m,)):
